@@ -6,7 +6,8 @@ into new dir / replace / chmod) or by a real command on a seeded edit (revert, m
 switch, shelve, unshelve).  A dry pass records the file-system calls of apply() at the os
 seam and the states S0 (before) and S1 (after).  Then one re-execution per call index k
 (quick: a seeded sample of <= 12): the world is restored from a pristine copy, the same
-transform is rebuilt, call k raises OSError(errno), the command / finalize() cleans up, and
+transform is rebuilt, call k raises OSError(errno) -- or, in a quarter of the points,
+KeyboardInterrupt / SystemExit arrives before it --, the command / finalize() cleans up, and
 the reopened tree is compared with S0 / S1.  Violations whose signature is an open known
 finding are noted and the enumeration goes on, so that other violations stay visible."""
 
@@ -25,7 +26,7 @@ from . import xformsim
 PROPERTY = "C13"
 LEVEL = "fault_enumeration"
 RULE = (
-    "one case = one (tree, transform, file-system call index k of apply(), errno) re-execution with that call failing; "
+    "one case = one (tree, transform, file-system call index k of apply(), errno or interrupt) re-execution with that call failing / the interrupt arriving before it; "
     "non-trivial = the transform changes the tree (S0 != S1) and the injected error fired inside apply(); "
     "distinct = distinct event-log digests of such re-executions"
 )
@@ -39,18 +40,24 @@ COMPONENTS = {
         "breezy.shelf (ShelfCreator, ShelfManager, Unshelver)",
         "2a / git working trees on a /dev/shm directory (dirstate / index written by the real code)",
     ],
-    "simulated": ["failure of one file-system call of the transform modules (os.rename, os.mkdir, delete_any, chmod_if_possible, ... as whole calls, no effect + OSError)"],
+    "simulated": [
+        "failure of one file-system call of the transform modules (os.rename, os.mkdir, delete_any, chmod_if_possible, ... as whole calls, no effect + OSError)",
+        "interrupt: KeyboardInterrupt / SystemExit raised before one file-system call of apply() (Ctrl-C or a signal handler's exit between two calls; clean-up handlers still run)",
+    ],
     "stub": ["UI (SilentUIFactory)"],
 }
 ASSUMPTIONS = [
     "a failing file-system call has no effect (os_err); Rust helpers (delete_any, chmod_if_possible) fail as a whole call",
-    "exactly one call fails per execution; the clean-up the command itself performs afterwards (rollback, finalize) succeeds",
+    "exactly one call fails (or one interrupt arrives) per execution; the clean-up the command itself performs afterwards (rollback, finalize) succeeds",
+    "an interrupt is delivered at a seam call (before it takes effect), never inside a system call or between two Python statements that make no file-system call",
     "no fault is injected inside the dirstate / index save (no seam there) or in the transport writes of control files",
     "residue in limbo/pending-deletion that blocks the next transform is counted (probes residue_blocks_next_<phase>), not judged: the property text covers the tree's files and versioning metadata; the one listed exception is finalize() failing on a limbo symlink that points at a directory",
 ]
 STEP_CAP = 20000
 
 ERRNO_NAMES = ["EACCES", "ENOSPC", "EIO", "EXDEV", "ENOTEMPTY"]
+# what call k raises: an errno (3 in 4) or an interrupt: KeyboardInterrupt "INT" / SystemExit "EXIT"
+FAULT_POOL = ERRNO_NAMES * 3 + ["INT", "INT", "INT", "EXIT", "EXIT"]
 PRE_COMMIT = ("removals", "insertions")
 POST_COMMIT = ("discard", "finalize", "meta")
 FORK_PER_POINT = os.environ.get("VERIF_XFORM_FORK") == "1"
@@ -499,7 +506,7 @@ def generate(rng, tier):
         "mode": mode,
         "tree": spec,
         "unversioned": unversioned,
-        "errnos": [rng.choice(ERRNO_NAMES) for _ in range(16)],
+        "errnos": [rng.choice(FAULT_POOL) for _ in range(16)],
         "sample_seed": rng.randrange(1 << 30),
         "backups": rng.random() < 0.4,
     }
@@ -678,6 +685,12 @@ def _eval_point(sub, plan, W, dry, k, extra):
         run_command(plan, W)
     except Exception as e:  # noqa: BLE001 - must stem from the injected failure (checked below)
         raised = e
+    except (KeyboardInterrupt, SystemExit) as e:
+        # the injected interrupt ends the simulated command here (a real one would end the
+        # process after its clean-up handlers ran); the state is judged by fresh objects below
+        if not (xformsim.chain_has(e, watch.injected) or xformsim.chain_has(watch.exc, watch.injected)):
+            raise
+        raised = e
     finally:
         watch.close()
         osseam.deactivate(sub)
@@ -690,7 +703,9 @@ def _eval_point(sub, plan, W, dry, k, extra):
     op = watch.ops[k - 1][0]
     site = site_of(plan, phase, op)
     extra["site"] = site
+    fkind = osseam.fault_kind(errno_name)
     sub.event("fault", k, errno_name, site)
+    sub.probe("fault_" + fkind)
     if raised is not None and not (xformsim.chain_has(raised, watch.injected) or xformsim.chain_has(watch.exc, watch.injected)):
         raise raised  # an exception unrelated to the injected failure: harness problem
     sub.event("outcome", type(raised).__name__ if raised is not None else "returned")
@@ -740,13 +755,13 @@ def _eval_point(sub, plan, W, dry, k, extra):
             d.append("meta vs S1: " + xformsim.diff_maps(state["meta"], s1["meta"]))
         if (disk0 or disk1) and (meta0 or meta1):
             d.append("S0->S1 disk: " + xformsim.diff_maps(s0["disk"], s1["disk"]))
-        sig = [oracle, "os_err", site]
+        sig = [oracle, fkind, site]
         detail = f"{errno_name} at call {k} ({want[0]} {want[1]} {want[2]}) in phase {phase}: {what}; " + " | ".join(d)
     elif changed and phase in PRE_COMMIT and where != "s0":
-        sig = ["all_or_nothing", "os_err", site + ":not-restored"]
+        sig = ["all_or_nothing", fkind, site + ":not-restored"]
         detail = f"{errno_name} at call {k} ({want[0]} {want[1]}) before the transform was committed, yet the tree ended in the transformed state (raised: {type(raised).__name__})"
     elif changed and phase in POST_COMMIT and where != "s1":
-        sig = ["meta_matches_disk", "os_err", site + ":reverted-after-commit"]
+        sig = ["meta_matches_disk", fkind, site + ":reverted-after-commit"]
         detail = f"{errno_name} at call {k} ({want[0]} {want[1]}) while discarding replaced content, yet the tree ended in the previous state"
     if sig is not None:
         sub.fail(sig[0], sig, scrub(detail, sub))
